@@ -65,6 +65,9 @@ ROWS = [
     ("log::metric::filename_comparator", "unwrap", ["call:file_name"], "compared paths are base_dir.join(name): they have a final component", True),
     ("log::metric::filename_comparator", "unwrap", ["call:to_str"], "names were pushed only on the name.to_str() == Some branch", True),
     ("log::metric::filename_comparator", "index", ["call:split"], "names passed filename_matches for one base filename: <svc>-metrics.log[.pidN].<date>[.n] has >= 3 (>= 4 with a pid part, for both names alike) dot-separated parts", True),
+    ("log::metric::reader::MetricLogReader>::read_metrics", "index", ["param:file_no", "param:name_list"], "first read: file_no is the searcher's loop variable i in file_no..filenames.len() over the same list (search_offset_and_read), and the list is non-empty; later reads are guarded by `file_no >= name_list.len() -> break` (local)", True),
+    ("log::metric::reader::MetricLogReader>::read_metrics_by_end_time", "index", ["param:file_no", "param:name_list"], "as for read_metrics", True),
+    ("log::metric::reader::get_latest_second", "index", ["param:items", "call:len"], "items[len - 1] on the !is_empty() path", True),
     # ---- exporter (core-super): lazy_static initialisers
     ("exporter::*", "unwrap", ["call:new"], "prometheus metric constructed from literal, distinct name/help/labels inside a lazy_static initialiser (runs once)", True),
     ("exporter::*", "unwrap", ["call:register"], "registered once per process from a lazy_static initialiser", True),
